@@ -36,7 +36,7 @@ structure DrawCfg where
   hasCursorRGB : Bool := false                  -- t.cursorRGB ≠ "" (always, after prepareCursorStyles)
   cornerTrick : Bool                            -- ti.AutoMargin ∧ ti.DisableAutoMargin = "" ∧ ti.InsertChar ≠ ""  (tscreen.go:815)
   guardLocked : Bool := currentGuardsLockedNeighbour  -- drawCell tests `t.cells.locked(x+1, y)` (repaired tree only)
-  fillZW : Bool := currentFillBlanksZeroWidth         -- CellBuffer.Fill stores width 0 for a zero-width rune (fixes/C09-fill-zero-width.patch)
+  fillZW : Bool := currentFillBlanksZeroWidth         -- CellBuffer.Fill stores a blank for a zero-width rune (fixes/C09-fill-zero-width.patch)
   walkGuard : Bool := currentWalkGuard                -- drawCell applies that test *before* the Dirty check (proposed fix)
 
 /-- the configurations the Layer-A invariant proofs of C01/C13 cover: no bottom-right insert-character trick; the
